@@ -13,7 +13,7 @@ open Value
 
 namespace Value
 
-theorem lookup_set_ne (k k' : Bytes) (x : Value) (h : k' ≠ k) : ∀ (p : Members),
+theorem lookup_set_ne_E (k k' : Bytes) (x : Value) (h : k' ≠ k) : ∀ (p : Members),
     lookup k' (Value.set k x p) = lookup k' p
   | [] => by
     have : ¬ k = k' := fun e => h e.symm
@@ -27,7 +27,7 @@ theorem lookup_set_ne (k k' : Bytes) (x : Value) (h : k' ≠ k) : ∀ (p : Membe
     · simp only [if_neg ha, lookup]
       by_cases hk : a = k'
       · simp [hk]
-      · simp only [if_neg hk]; exact lookup_set_ne k k' x h p
+      · simp only [if_neg hk]; exact lookup_set_ne_E k k' x h p
 
 end Value
 
@@ -83,7 +83,7 @@ theorem composeMs_cons_some (p : Members) (k : Bytes) (v2 c : Value) (q : Member
   | str s => simp [composeMs, compose]
   | arr xs => simp [composeMs, compose]
 
-theorem compatibleMs_cons (p : Members) (k : Bytes) (v2 : Value) (q : Members)
+theorem compatibleMs_cons_E (p : Members) (k : Bytes) (v2 : Value) (q : Members)
     (h : compatibleMs p ((k, v2) :: q) = true) :
     compatibleMs p q = true ∧ (∀ c, lookup k p = some c → compatible c v2 = true) := by
   cases v2 with
@@ -114,7 +114,7 @@ theorem compatibleMs_set (k : Bytes) (x : Value) (p : Members) : ∀ (q : Member
     have hne : k' ≠ k := fun e => h.1 e.symm
     have ih := compatibleMs_set k x p q h.2
     cases v2 with
-    | obj q2 => simp only [compatibleMs, lookup_set_ne k k' x hne p, ih]
+    | obj q2 => simp only [compatibleMs, lookup_set_ne_E k k' x hne p, ih]
     | null => simp only [compatibleMs, ih]
     | bool b => simp only [compatibleMs, ih]
     | num l => simp only [compatibleMs, ih]
@@ -175,7 +175,7 @@ theorem mergeDocsC_compose : ∀ (pms : List (Bytes × Cst)) (keys : List Bytes)
     have ⟨hk1, hk2⟩ := (nodupKeys_cons _ _).mp hk
     simp only [valueOfM, noDupM, Bool.and_eq_true] at hd
     simp only [valueOfM] at hcomp
-    have ⟨hcomp2, hcomp1⟩ := Spec.compatibleMs_cons _ _ _ _ hcomp
+    have ⟨hcomp2, hcomp1⟩ := Spec.compatibleMs_cons_E _ _ _ _ hcomp
     have ⟨_, _, hwm⟩ := (WF_doc_iff _ _).mp hw
     rw [mergeDocsC_cons, hsh]
     simp only [Bool.false_eq_true, if_false, valueOfM]
